@@ -276,12 +276,46 @@ func c08Repair(s *simkit.Sim, h *dagHarness, fold *world.FoldResult) {
 	if len(leaves) == 0 {
 		return
 	}
+	// page boundary: the highest clock is exactly the first clock of the second page, and that page is the corrupted one
+	boundary := fold != nil && fold.High < dag.PageSize && s.D.Decide("repair-page-boundary", 4) == 3
+	if boundary {
+		var last *world.CTx
+		for _, t := range h.corpus.Valid {
+			if _, ok := h.acked[t.Ref]; ok && t.LC == fold.High {
+				last = t
+				break
+			}
+		}
+		if last == nil {
+			boundary = false
+		}
+		for boundary && last.LC < dag.PageSize {
+			t := h.corpus.SignValid([]*world.CTx{last}, []byte(fmt.Sprintf("chain-%d", last.LC+1)), "foo/bar", h.corpus.Keys[0], nil)
+			if err := n.State().Add(context.Background(), t.Tx, t.Payload); err != nil {
+				s.Fail("C08.harness", "repair", "chain to the page boundary: %v", err)
+				return
+			}
+			h.corpus.Valid = append(h.corpus.Valid, t)
+			h.acked[t.Ref] = 0
+			last = t
+		}
+		if boundary {
+			leaves = map[string][]byte{}
+			_ = kv.ReadShelf(context.Background(), "xorBucket", func(r stoabs.Reader) error {
+				return r.Iterate(func(k stoabs.Key, v []byte) error { leaves[string(k.Bytes())] = append([]byte(nil), v...); return nil }, stoabs.BytesKey{})
+			})
+			s.Probes.Inc("repair-at-page-boundary")
+		}
+	}
 	keys := make([]string, 0, len(leaves))
 	for k := range leaves {
 		keys = append(keys, k)
 	}
 	sortStrings(keys)
 	victim := keys[s.D.Decide("repair-victim", len(keys))]
+	if boundary {
+		victim = keys[len(keys)-1] // keys are big-endian clocks: the last page
+	}
 	h.w.Stop(h.name, false)
 	// corrupt while down: reopen through a new incarnation's store, before start
 	corrupted := append([]byte(nil), leaves[victim]...)
